@@ -170,6 +170,32 @@ pub fn gen(tier: &str, seed: u64, out: &mut dyn FnMut(Value)) {
         let rule = json!({"name": "r", "matches": [["$m", s]]});
         out(json!({"op": "tpl_replace", "tpls": tpls, "rule": rule, "instances": 64, "tag": "replace: witnesses", "nt": true}));
     }
+    // rules and template documents interleaved: each rule is rewritten with the templates known when *it* is loaded
+    // (two rules may carry the very same match string and still differ afterwards)
+    let n = if thorough { 20000 } else { 2000 };
+    for _ in 0..n {
+        let len = 2 + rng.below(6);
+        let mut ops = vec![];
+        let mut rn = 0;
+        for _ in 0..len {
+            if rng.chance(1, 2) {
+                let k = 1 + rng.below(2);
+                let mut names: Vec<&str> = vec!["a", "b", "ab"];
+                let mut doc = vec![];
+                for _ in 0..k {
+                    let i = rng.below(names.len());
+                    doc.push(json!([names.remove(i), *rng.pick(&["X", "Y", "{{a}}", "\u{e9}"])]));
+                }
+                ops.push(json!({"k": "tpl", "doc": doc}));
+            } else {
+                rn += 1;
+                let m = *rng.pick(&[".x == '{{a}}'", ".x == '{{a}}{{b}}'", ".x == '\u{c9}t\u{e9} {{ab}}'", ".x == 'plain'"]);
+                ops.push(json!({"k": "load", "docs": [{"name": format!("r{rn}"), "matches": [["$m", m]], "condition": "$m"}]}));
+            }
+        }
+        ops.push(json!({"k": "rules"}));
+        out(json!({"op": "history", "ops": ops, "tag": "rules and template documents interleaved", "nt": true}));
+    }
     // the programmatic API: insert / extend sequences with redefinitions; the rule shows which text survived
     let n = if thorough { 100000 } else { 8000 };
     for _ in 0..n {
